@@ -300,9 +300,12 @@ theorem stepNG_slots (s : Shared) (b : Bool) (ng : NG) (hb : Beyond s) (m : Nat)
       simp only [stepNG]
       split <;> (simp only [Shared.setNode, upd]; split <;> simp_all)
   | trav => simp [stepNG]
-  | cc0 n => simp [stepNG]
+  | cc0 n =>
+    simp only [stepNG]; split
+    · simp only [Shared.setNode, upd]; split <;> simp_all
+    · simp
   | cc1 n => simp [stepNG]
-  | cc2 n =>
+  | cc2 n idle =>
     simp only [stepNG]; split
     · simp only [Shared.setNode, upd]; split <;> simp_all
     · simp
